@@ -61,10 +61,13 @@ fn snap(store: &GraphStore) -> Snap {
 // ---------------------------------------------------------------- trusted transcription of main.rs
 
 /// `src/main.rs::start_server`, from "Initialize persistence FIRST" to "Graph Statistics",
-/// verbatim except that `println!`/`eprintln!` lines are dropped and `--data-path` is `path`.
+/// verbatim except that `println!`/`eprintln!` lines are dropped, `--data-path` is `path`, and the
+/// relationships refused by `insert_recovered_edge` are also collected for the harness.
 /// Returns the store the restarted server would serve, and the persistence manager (kept
 /// alive by the caller like `start_server` does).
-fn recover_like_main(path: &str) -> (GraphStore, Option<Arc<PersistenceManager>>) {
+fn recover_like_main(path: &str) -> (GraphStore, Option<Arc<PersistenceManager>>, Vec<samyama::graph::Edge>) {
+    // not in main.rs: the stored relationships which recovery refuses (side channel for the harness)
+    let mut refused_edges = vec![];
     let (mut graph, _rx) = GraphStore::with_async_indexing();
 
     let persistence = match samyama::PersistenceManager::new(path) {
@@ -84,7 +87,10 @@ fn recover_like_main(path: &str) -> (GraphStore, Option<Arc<PersistenceManager>>
                                 graph.insert_recovered_node(node);
                             }
                             for edge in edges {
-                                if let Err(_e) = graph.insert_recovered_edge(edge) {}
+                                let copy = edge.clone();
+                                if let Err(_e) = graph.insert_recovered_edge(edge) {
+                                    refused_edges.push(copy);
+                                }
                             }
                             recovered = true;
                         }
@@ -108,7 +114,7 @@ fn recover_like_main(path: &str) -> (GraphStore, Option<Arc<PersistenceManager>>
             Err(_e) => {}
         }
     }
-    (graph, persistence)
+    (graph, persistence, refused_edges)
 }
 
 // ---------------------------------------------------------------- requests
@@ -123,6 +129,11 @@ enum Fe {
 enum Rq {
     Query(Fe, String),
     GraphDelete,
+    /// the server is stopped and started again on the same data directory
+    Restart,
+    /// `CREATE (n:Other {k: -1}) RETURN n` addressed to the graph name `other`: both front ends
+    /// refuse it (this build serves one graph); it must leave memory and disk alone
+    OtherGraph(Fe),
 }
 
 fn show_rq(r: &Rq) -> String {
@@ -130,6 +141,9 @@ fn show_rq(r: &Rq) -> String {
         Rq::Query(Fe::Resp, q) => format!("R {}", escape(q)),
         Rq::Query(Fe::Http, q) => format!("H {}", escape(q)),
         Rq::GraphDelete => "GD".into(),
+        Rq::Restart => "RS".into(),
+        Rq::OtherGraph(Fe::Resp) => "OG R".into(),
+        Rq::OtherGraph(Fe::Http) => "OG H".into(),
     }
 }
 
@@ -139,6 +153,12 @@ fn parse_hist(line: &str) -> Vec<Rq> {
             let p = p.trim();
             if p == "GD" {
                 Some(Rq::GraphDelete)
+            } else if p == "RS" {
+                Some(Rq::Restart)
+            } else if p == "OG R" {
+                Some(Rq::OtherGraph(Fe::Resp))
+            } else if p == "OG H" {
+                Some(Rq::OtherGraph(Fe::Http))
             } else if let Some(q) = p.strip_prefix("R ") {
                 Some(Rq::Query(Fe::Resp, unescape(q)))
             } else if let Some(q) = p.strip_prefix("H ") {
@@ -197,24 +217,33 @@ struct Real {
     rec: Snap,
     /// an unacknowledged request changed memory: the history is not usable
     tainted: bool,
+    /// synthetic model requests that establish the state the epoch starts from
+    prefix: Vec<String>,
+    /// relationships stored on disk but absent from the store the epoch starts from
+    dangling: Vec<u64>,
 }
 
+/// ids of the entities a RESP reply returns as **whole-entity cells** (`[header, row, row, …]`,
+/// a cell `Node(NodeId(3))` / `Edge(EdgeId(1), 1 -> 2)`).  An entity inside a list cell
+/// (`RETURN collect(n)`) is not a `Value::Node` of the row and is not persisted by the handler.
 fn ids_in_resp(v: &RespValue, ns: &mut Vec<u64>, es: &mut Vec<u64>) {
-    match v {
-        RespValue::Array(a) => a.iter().for_each(|x| ids_in_resp(x, ns, es)),
-        RespValue::BulkString(Some(b)) => {
-            let s = String::from_utf8_lossy(b);
-            if let Some(r) = s.strip_prefix("Node(NodeId(") {
-                if let Ok(i) = r.trim_end_matches(')').parse() {
-                    ns.push(i);
-                }
-            } else if let Some(r) = s.strip_prefix("Edge(EdgeId(") {
-                if let Ok(i) = r.split(')').next().unwrap_or("").parse() {
-                    es.push(i);
+    let RespValue::Array(rows) = v else { return };
+    for row in rows.iter().skip(1) {
+        let RespValue::Array(cells) = row else { continue };
+        for c in cells {
+            if let RespValue::BulkString(Some(b)) = c {
+                let s = String::from_utf8_lossy(b);
+                if let Some(r) = s.strip_prefix("Node(NodeId(") {
+                    if let Ok(i) = r.trim_end_matches(')').parse() {
+                        ns.push(i);
+                    }
+                } else if let Some(r) = s.strip_prefix("Edge(EdgeId(") {
+                    if let Ok(i) = r.split(')').next().unwrap_or("").parse() {
+                        es.push(i);
+                    }
                 }
             }
         }
-        _ => {}
     }
 }
 
@@ -243,128 +272,233 @@ impl Interner {
     }
 }
 
-fn run_history(rt: &tokio::runtime::Runtime, dir: &Path, hist: &[Rq], codes: &mut Interner) -> Real {
+fn edge_entry(e: &samyama::graph::Edge) -> (u64, (u64, u64, String)) {
+    let props: HashMap<String, PropertyValue> = e.properties.iter().map(|(k, v)| (k.clone(), v.clone())).collect();
+    let mut ps: Vec<String> = props.iter().filter(|(_, v)| !matches!(v, PropertyValue::Null)).map(|(k, v)| format!("{}={}", esc(k), pv_text(v))).collect();
+    ps.sort();
+    (e.id.as_u64(), (e.source.as_u64(), e.target.as_u64(), format!("[{}|{}]", esc(e.edge_type.as_str()), ps.join(","))))
+}
+
+/// One history = one or more epochs separated by `RS` (restart).  Every epoch is evaluated
+/// against the restart that ends it; the epoch after a restart starts from the recovered store.
+/// For the model, an epoch that starts from a non-empty data directory is prefixed with
+/// synthetic requests that put the model in that state: one RESP create that returns
+/// everything stored (memory = disk), then a RESP delete of the relationships recovery refused
+/// (they stay on disk, they are not in memory).
+fn run_history(rt: &tokio::runtime::Runtime, dir: &Path, hist: &[Rq], codes: &mut Interner) -> Vec<Real> {
     let path = dir.to_str().unwrap().to_string();
-    let mut steps = vec![];
-    let mut tainted = false;
-    let mem;
-    {
-        // first boot on an empty data directory: the same code path as any boot
-        let (graph, persistence) = recover_like_main(&path);
-        let pm = persistence.expect("persistence manager");
-        let store: Shared = Arc::new(RwLock::new(graph));
-        let tenants = pm.tenants_arc();
-        let handler = CommandHandler::new_with_tenants(Some(Arc::clone(&pm)), Arc::clone(&tenants));
-        let http = HttpServer::new(Arc::clone(&store), 0).with_data_path(Some(path.clone())).with_tenant_manager(Arc::clone(&tenants));
-        let mut before = rt.block_on(async { snap(&*store.read().await) });
-        for rq in hist {
-            let (acked, ret_n, ret_e) = rt.block_on(async {
-                let mut ns = vec![];
-                let mut es = vec![];
-                match rq {
-                    Rq::Query(Fe::Resp, q) => {
-                        let r = run_resp(&handler, &store, q).await;
-                        ids_in_resp(&r, &mut ns, &mut es);
-                        (!matches!(r, RespValue::Error(_)), ns, es)
-                    }
-                    Rq::Query(Fe::Http, q) => {
-                        use http_body_util::BodyExt;
-                        use tower::ServiceExt;
-                        let body = json!({ "query": q }).to_string();
-                        let req = axum::http::Request::builder().method("POST").uri("/api/query").header("content-type", "application/json").body(axum::body::Body::from(body)).unwrap();
-                        let resp = http.router().oneshot(req).await.unwrap();
-                        let ok = resp.status().as_u16() == 200;
-                        let bytes = resp.into_body().collect().await.unwrap().to_bytes();
-                        let j: serde_json::Value = serde_json::from_slice(&bytes).unwrap_or(json!({}));
-                        ids_in_json(&j, &mut ns, &mut es);
-                        (ok && j.get("error").is_none(), ns, es)
-                    }
-                    Rq::GraphDelete => {
-                        let r = run_resp_cmd(&handler, &store, &["GRAPH.DELETE", "default"]).await;
-                        (matches!(r, RespValue::SimpleString(_)), ns, es)
+    let mut out = vec![];
+    // first boot on an empty data directory: the same code path as any boot
+    let mut boot = recover_like_main(&path);
+    for epoch in hist.split(|r| matches!(r, Rq::Restart)) {
+        let (graph, persistence, refused) = boot;
+        let mut steps = vec![];
+        let mut tainted = false;
+        let mem;
+        let mut prefix: Vec<String> = vec![];
+        let dangling: Vec<u64>;
+        {
+            let pm = persistence.expect("persistence manager");
+            let store: Shared = Arc::new(RwLock::new(graph));
+            let tenants = pm.tenants_arc();
+            let handler = CommandHandler::new_with_tenants(Some(Arc::clone(&pm)), Arc::clone(&tenants));
+            let http = HttpServer::new(Arc::clone(&store), 0).with_data_path(Some(path.clone())).with_tenant_manager(Arc::clone(&tenants));
+            let mut before = rt.block_on(async { snap(&*store.read().await) });
+            // Stored relationships that are not in the recovered store.  Read straight from the
+            // storage layer (read-only) and not only from the refusals of `insert_recovered_edge`:
+            // when no node is stored, `list_persisted_tenants` lists nothing and recovery does
+            // not even look at the stored relationships — they are still on disk.
+            let mut refused = refused;
+            if let Ok(stored) = pm.storage().scan_edges("default") {
+                for e in stored {
+                    if !before.edges.contains_key(&e.id.as_u64()) && !refused.iter().any(|r| r.id == e.id) {
+                        refused.push(e);
                     }
                 }
-            });
-            let after = rt.block_on(async { snap(&*store.read().await) });
-            // entity-level difference
-            let mut muts: Vec<String> = vec![];
-            let mut muts_n = vec![];
-            let mut muts_e = vec![];
-            for (i, (s, t, d)) in &before.edges {
-                if !after.edges.contains_key(i) {
-                    muts.push(format!("e{}x", i));
-                    muts_e.push(*i);
-                    let _ = (s, t, d);
-                }
             }
-            for i in before.nodes.keys() {
-                if !after.nodes.contains_key(i) {
-                    muts.push(format!("n{}x", i));
-                    muts_n.push(*i);
-                }
-            }
-            for (i, d) in &after.nodes {
-                if before.nodes.get(i) != Some(d) {
-                    muts.push(format!("n{}={}", i, codes.code(d)));
-                    muts_n.push(*i);
-                }
-            }
-            for (i, (s, t, d)) in &after.edges {
-                if before.edges.get(i) != Some(&(*s, *t, d.clone())) {
+            dangling = refused.iter().map(|e| e.id.as_u64()).collect();
+            if !before.nodes.is_empty() || !before.edges.is_empty() || !refused.is_empty() {
+                let mut muts: Vec<String> = before.nodes.iter().map(|(i, d)| format!("n{}={}", i, codes.code(d))).collect();
+                let mut eids: Vec<u64> = vec![];
+                let stored: Vec<(u64, (u64, u64, String))> = before.edges.iter().map(|(i, v)| (*i, v.clone())).chain(refused.iter().map(edge_entry)).collect();
+                for (i, (s, t, d)) in &stored {
                     muts.push(format!("e{}={}.{}.{}", i, s, t, codes.code(d)));
-                    muts_e.push(*i);
+                    eids.push(*i);
+                }
+                let join = |v: Vec<String>| if v.is_empty() { "-".to_string() } else { v.join(".") };
+                prefix.push(format!(
+                    "Qrc/{}/{}/{}",
+                    muts.join(","),
+                    join(before.nodes.keys().map(|i| i.to_string()).collect()),
+                    join(eids.iter().map(|i| i.to_string()).collect())
+                ));
+                if !refused.is_empty() {
+                    prefix.push(format!("Qrd/{}/-/-", refused.iter().map(|e| format!("e{}x", e.id.as_u64())).collect::<Vec<_>>().join(",")));
                 }
             }
-            let ids = |v: &Vec<u64>| if v.is_empty() { "-".to_string() } else { v.iter().map(|x| x.to_string()).collect::<Vec<_>>().join(".") };
-            let model = if !acked {
-                if !muts.is_empty() {
-                    tainted = true;
+            for rq in epoch {
+                let (acked, ret_n, ret_e) = rt.block_on(async {
+                    let mut ns = vec![];
+                    let mut es = vec![];
+                    match rq {
+                        Rq::Query(Fe::Resp, q) => {
+                            let r = run_resp(&handler, &store, q).await;
+                            ids_in_resp(&r, &mut ns, &mut es);
+                            (!matches!(r, RespValue::Error(_)), ns, es)
+                        }
+                        Rq::Query(Fe::Http, q) => {
+                            use http_body_util::BodyExt;
+                            use tower::ServiceExt;
+                            let body = json!({ "query": q }).to_string();
+                            let req = axum::http::Request::builder().method("POST").uri("/api/query").header("content-type", "application/json").body(axum::body::Body::from(body)).unwrap();
+                            let resp = http.router().oneshot(req).await.unwrap();
+                            let ok = resp.status().as_u16() == 200;
+                            let bytes = resp.into_body().collect().await.unwrap().to_bytes();
+                            let j: serde_json::Value = serde_json::from_slice(&bytes).unwrap_or(json!({}));
+                            ids_in_json(&j, &mut ns, &mut es);
+                            (ok && j.get("error").is_none(), ns, es)
+                        }
+                        Rq::GraphDelete => {
+                            let r = run_resp_cmd(&handler, &store, &["GRAPH.DELETE", "default"]).await;
+                            (matches!(r, RespValue::SimpleString(_)), ns, es)
+                        }
+                        Rq::OtherGraph(Fe::Resp) => {
+                            let r = run_resp_cmd(&handler, &store, &["GRAPH.QUERY", "other", "CREATE (n:Other {k: -1}) RETURN n"]).await;
+                            ids_in_resp(&r, &mut ns, &mut es);
+                            (!matches!(r, RespValue::Error(_)), ns, es)
+                        }
+                        Rq::OtherGraph(Fe::Http) => {
+                            use http_body_util::BodyExt;
+                            use tower::ServiceExt;
+                            let body = json!({ "query": "CREATE (n:Other {k: -1}) RETURN n", "graph": "other" }).to_string();
+                            let req = axum::http::Request::builder().method("POST").uri("/api/query").header("content-type", "application/json").body(axum::body::Body::from(body)).unwrap();
+                            let resp = http.router().oneshot(req).await.unwrap();
+                            let ok = resp.status().as_u16() == 200;
+                            let bytes = resp.into_body().collect().await.unwrap().to_bytes();
+                            let j: serde_json::Value = serde_json::from_slice(&bytes).unwrap_or(json!({}));
+                            ids_in_json(&j, &mut ns, &mut es);
+                            (ok && j.get("error").is_none(), ns, es)
+                        }
+                        Rq::Restart => unreachable!(),
+                    }
+                });
+                let after = rt.block_on(async { snap(&*store.read().await) });
+                // entity-level difference
+                let mut muts: Vec<String> = vec![];
+                let mut muts_n = vec![];
+                let mut muts_e = vec![];
+                for i in before.edges.keys() {
+                    if !after.edges.contains_key(i) {
+                        muts.push(format!("e{}x", i));
+                        muts_e.push(*i);
+                    }
                 }
-                None
-            } else {
-                Some(match rq {
-                    Rq::GraphDelete => "GD".to_string(),
-                    Rq::Query(fe, q) => format!(
-                        "Q{}{}/{}/{}/{}",
-                        if *fe == Fe::Resp { 'r' } else { 'h' },
-                        kind_of(q),
-                        if muts.is_empty() { "-".to_string() } else { muts.join(",") },
-                        ids(&ret_n),
-                        ids(&ret_e)
-                    ),
-                })
-            };
-            steps.push(Step { rq: rq.clone(), acked, model, muts_n, muts_e, ret_n, ret_e });
-            before = after;
+                for i in before.nodes.keys() {
+                    if !after.nodes.contains_key(i) {
+                        muts.push(format!("n{}x", i));
+                        muts_n.push(*i);
+                    }
+                }
+                for (i, d) in &after.nodes {
+                    if before.nodes.get(i) != Some(d) {
+                        muts.push(format!("n{}={}", i, codes.code(d)));
+                        muts_n.push(*i);
+                    }
+                }
+                for (i, (s, t, d)) in &after.edges {
+                    if before.edges.get(i) != Some(&(*s, *t, d.clone())) {
+                        muts.push(format!("e{}={}.{}.{}", i, s, t, codes.code(d)));
+                        muts_e.push(*i);
+                    }
+                }
+                let ids = |v: &Vec<u64>| if v.is_empty() { "-".to_string() } else { v.iter().map(|x| x.to_string()).collect::<Vec<_>>().join(".") };
+                let model = if !acked {
+                    if !muts.is_empty() {
+                        tainted = true;
+                    }
+                    None
+                } else {
+                    Some(match rq {
+                        Rq::GraphDelete => "GD".to_string(),
+                        Rq::Restart => unreachable!(),
+                        // acknowledged although addressed to another graph: modelled as the statement it ran
+                        Rq::OtherGraph(fe) => format!(
+                            "Q{}c/{}/{}/{}",
+                            if *fe == Fe::Resp { 'r' } else { 'h' },
+                            if muts.is_empty() { "-".to_string() } else { muts.join(",") },
+                            ids(&ret_n),
+                            ids(&ret_e)
+                        ),
+                        Rq::Query(fe, q) => format!(
+                            "Q{}{}/{}/{}/{}",
+                            if *fe == Fe::Resp { 'r' } else { 'h' },
+                            kind_of(q),
+                            if muts.is_empty() { "-".to_string() } else { muts.join(",") },
+                            ids(&ret_n),
+                            ids(&ret_e)
+                        ),
+                    })
+                };
+                steps.push(Step { rq: rq.clone(), acked, model, muts_n, muts_e, ret_n, ret_e });
+                before = after;
+            }
+            mem = before;
+            // shutdown: the process ends; nothing is flushed explicitly by the server either
+            drop(http);
+            drop(handler);
+            drop(store);
+            drop(tenants);
+            drop(pm);
         }
-        mem = before;
-        // shutdown: the process ends; nothing is flushed explicitly by the server either
-        drop(http);
-        drop(handler);
-        drop(store);
-        drop(tenants);
-        drop(pm);
+        // restart on the same data directory
+        boot = recover_like_main(&path);
+        let rec = snap(&boot.0);
+        out.push(Real { steps, mem, rec, tainted, prefix, dangling });
     }
-    // restart on the same data directory
-    let (graph, persistence) = recover_like_main(&path);
-    let rec = snap(&graph);
-    drop(persistence);
-    Real { steps, mem, rec, tainted }
+    out
 }
 
 // ---------------------------------------------------------------- generator
 
 struct Gen {
     next_k: i64,
-    /// keys of nodes believed alive, relationship keys believed alive
+    /// keys (`k` property) of nodes believed alive, `w` of relationships believed alive
     nodes: Vec<i64>,
     rels: Vec<i64>,
 }
+
+/// node shapes: label sets and property values of several types
+const NODE_LABELS: &[&str] = &[":L", ":L", ":L:Extra", ":A:B:C", "", ":Q"];
+const NODE_PROPS: &[&str] = &[
+    "",
+    ", s: 'a b'",
+    ", f: 1.5, b: true",
+    ", t: [1, 2, 3], u: ['x', 'y z']",
+    ", s: 'h\u{e9}llo \u{4e16}', neg: -7",
+    ", e: '', z: 0, big: 9007199254740993",
+];
+/// relationship shapes: type and properties (the first has no property besides the key)
+const REL_SHAPES: &[(&str, &str)] = &[("T", ""), ("T", ", s: 'x y'"), ("U", ", f: 2.5, b: false"), ("LONGER_TYPE", ", t: [1, 2]")];
 
 impl Gen {
     fn fresh(&mut self) -> i64 {
         self.next_k += 1;
         self.next_k
+    }
+    fn node(&mut self, rng: &mut Rng, var: &str) -> String {
+        let k = self.fresh();
+        self.nodes.push(k);
+        format!("({}{} {{k: {}{}}})", var, rng.pick(NODE_LABELS), k, rng.pick(NODE_PROPS))
+    }
+    fn rel(&mut self, rng: &mut Rng, var: &str) -> String {
+        if rng.chance(1, 5) {
+            // no property at all (it cannot be addressed later)
+            return format!("[{}:BARE]", var);
+        }
+        let w = self.fresh();
+        self.rels.push(w);
+        let (t, p) = rng.pick(REL_SHAPES);
+        format!("[{}:{} {{w: {}{}}}]", var, t, w, p)
     }
     fn request(&mut self, rng: &mut Rng) -> Rq {
         let fe = if rng.chance(3, 4) { Fe::Resp } else { Fe::Http };
@@ -373,67 +507,69 @@ impl Gen {
         let have_two = self.nodes.len() >= 2;
         let have_r = !self.rels.is_empty();
         loop {
-            let c = rng.usize(17);
+            let c = rng.usize(27);
             let q = match c {
                 0 => {
-                    let k = self.fresh();
-                    self.nodes.push(k);
-                    format!("CREATE (n:L {{k: {}}}){}", k, if ret { " RETURN n" } else { "" })
+                    let n = self.node(rng, "n");
+                    format!("CREATE {}{}", n, if ret { " RETURN n" } else { "" })
                 }
                 1 => {
-                    let (a, b, w) = (self.fresh(), self.fresh(), self.fresh());
-                    self.nodes.push(a);
-                    self.nodes.push(b);
-                    self.rels.push(w);
-                    let r = match rng.usize(5) {
+                    let (a, r, b) = (self.node(rng, "a"), self.rel(rng, "r"), self.node(rng, "b"));
+                    let tail = match rng.usize(6) {
                         0 => "",
                         1 => " RETURN r",
                         2 => " RETURN a",
+                        3 => " RETURN b, r, a",
                         _ => " RETURN a, r, b",
                     };
-                    format!("CREATE (a:L {{k: {}}})-[r:T {{w: {}}}]->(b:L {{k: {}}}){}", a, w, b, r)
+                    format!("CREATE {}-{}->{}{}", a, r, b, tail)
                 }
                 2 if have_two => {
                     let a = *rng.pick(&self.nodes);
                     let b = *rng.pick(&self.nodes);
-                    let w = self.fresh();
-                    self.rels.push(w);
-                    let r = match rng.usize(3) {
+                    let r = self.rel(rng, "r");
+                    let tail = match rng.usize(3) {
                         0 => "",
                         1 => " RETURN r",
                         _ => " RETURN a, r, b",
                     };
-                    format!("MATCH (a:L {{k: {}}}), (b:L {{k: {}}}) CREATE (a)-[r:T {{w: {}}}]->(b){}", a, b, w, r)
+                    format!("MATCH (a {{k: {}}}), (b {{k: {}}}) CREATE (a)-{}->(b){}", a, b, r, tail)
                 }
                 3 | 4 if have_n => {
                     let k = *rng.pick(&self.nodes);
-                    format!("MATCH (n:L {{k: {}}}) SET n.x = {}{}", k, self.fresh(), if ret { " RETURN n" } else { "" })
+                    let v = match rng.usize(4) {
+                        0 => "2.25".to_string(),
+                        1 => "'p q'".to_string(),
+                        2 => "[4, 5]".to_string(),
+                        _ => self.fresh().to_string(),
+                    };
+                    format!("MATCH (n {{k: {}}}) SET n.x = {}{}", k, v, if ret { " RETURN n" } else { "" })
                 }
                 5 if have_n => {
                     let k = *rng.pick(&self.nodes);
-                    format!("MATCH (n:L {{k: {}}})\nSET n.y = {}{}", k, self.fresh(), if ret { "\nRETURN n" } else { "" })
+                    format!("MATCH (n {{k: {}}})\nSET n.y = {}{}", k, self.fresh(), if ret { "\nRETURN n" } else { "" })
                 }
                 6 if have_n => {
                     let k = *rng.pick(&self.nodes);
-                    format!("MATCH (n:L {{k: {}}}) REMOVE n.x{}", k, if ret { " RETURN n" } else { "" })
+                    format!("MATCH (n {{k: {}}}) REMOVE n.x{}", k, if ret { " RETURN n" } else { "" })
                 }
                 7 if have_n => {
                     let k = *rng.pick(&self.nodes);
-                    format!("MATCH (n:L {{k: {}}}) SET n:Extra{}", k, if ret { " RETURN n" } else { "" })
+                    format!("MATCH (n {{k: {}}}) SET n:Extra{}", k, if ret { " RETURN n" } else { "" })
                 }
                 8 if have_n => {
                     let i = rng.usize(self.nodes.len());
                     let k = self.nodes.remove(i);
-                    format!("MATCH (n:L {{k: {}}}) DETACH DELETE n", k)
+                    format!("MATCH (n {{k: {}}}) DETACH DELETE n", k)
                 }
                 9 if have_r => {
                     let w = *rng.pick(&self.rels);
-                    format!("MATCH (:L)-[r:T {{w: {}}}]->(:L) SET r.v = {}{}", w, self.fresh(), if ret { " RETURN r" } else { "" })
+                    format!("MATCH ()-[r {{w: {}}}]->() SET r.v = {}{}", w, self.fresh(), if ret { " RETURN r" } else { "" })
                 }
                 10 if have_r => {
                     let i = rng.usize(self.rels.len());
                     let w = self.rels.remove(i);
-                    format!("MATCH (:L)-[r:T {{w: {}}}]->(:L) DELETE r", w)
+                    format!("MATCH ()-[r {{w: {}}}]->() DELETE r", w)
                 }
                 11 => {
                     let k = self.fresh();
@@ -442,7 +578,7 @@ impl Gen {
                 }
                 12 if have_n => {
                     let k = *rng.pick(&self.nodes);
-                    format!("MERGE (n:L {{k: {}}}) ON MATCH SET n.seen = {}{}", k, self.fresh(), if ret { " RETURN n" } else { "" })
+                    format!("MERGE (n:L {{k: {}}}) ON MATCH SET n.seen = {} ON CREATE SET n.made = 1{}", k, self.fresh(), if ret { " RETURN n" } else { "" })
                 }
                 13 => {
                     let (a, b) = (self.fresh(), self.fresh());
@@ -450,20 +586,65 @@ impl Gen {
                     self.nodes.push(b);
                     format!("UNWIND [{}, {}] AS x CREATE (n:L {{k: x}}){}", a, b, if ret { " RETURN n" } else { "" })
                 }
-                14 => {
-                    let k = self.fresh();
-                    self.nodes.push(k);
-                    format!("CREATE (n:L {{k: {}, s: 'a b', t: [1, 2]}}) RETURN n", k)
+                14 if have_n => {
+                    // every node, many rows
+                    format!("MATCH (n) SET n.all = {}{}", self.fresh(), if ret { " RETURN n" } else { "" })
                 }
-                15 if have_n && fe == Fe::Resp && rng.chance(1, 6) => {
+                15 if have_n && fe == Fe::Resp && rng.chance(1, 3) => {
                     self.nodes.clear();
                     self.rels.clear();
                     return Rq::GraphDelete;
                 }
                 16 if have_n => {
                     let k = *rng.pick(&self.nodes);
-                    format!("MATCH (n:L {{k: {}}}) SET n.x = {}, n:Tag RETURN n", k, self.fresh())
+                    format!("MATCH (n {{k: {}}}) SET n.x = {}, n:Tag RETURN n", k, self.fresh())
                 }
+                17 if have_n => {
+                    let k = *rng.pick(&self.nodes);
+                    format!("MATCH (n {{k: {}}}) REMOVE n:Extra{}", k, if ret { " RETURN n" } else { "" })
+                }
+                18 if have_n => {
+                    // returned under an alias, next to a scalar
+                    let k = *rng.pick(&self.nodes);
+                    format!("MATCH (n {{k: {}}}) SET n.al = {} RETURN n.k AS key, n AS m", k, self.fresh())
+                }
+                19 if have_n => {
+                    // returned only inside a list: not a whole-entity cell
+                    let k = *rng.pick(&self.nodes);
+                    format!("MATCH (n {{k: {}}}) SET n.li = {} RETURN collect(n) AS ns", k, self.fresh())
+                }
+                20 if have_n => {
+                    // self loop, relationship without properties besides the key
+                    let k = *rng.pick(&self.nodes);
+                    let w = self.fresh();
+                    self.rels.push(w);
+                    format!("MATCH (a {{k: {}}}) CREATE (a)-[r:SELF {{w: {}}}]->(a){}", k, w, if ret { " RETURN r" } else { "" })
+                }
+                21 if have_two => {
+                    // relationship with no property at all
+                    let a = *rng.pick(&self.nodes);
+                    let b = *rng.pick(&self.nodes);
+                    format!("MATCH (a {{k: {}}}), (b {{k: {}}}) CREATE (a)-[r:BARE]->(b){}", a, b, if ret { " RETURN r" } else { "" })
+                }
+                22 if have_r => {
+                    let w = *rng.pick(&self.rels);
+                    format!("MATCH (a)-[r {{w: {}}}]->(b) SET r.s = 'q r', a.touched = {} RETURN a, r, b", w, self.fresh())
+                }
+                23 if have_n => {
+                    let k = *rng.pick(&self.nodes);
+                    format!("MATCH (n {{k: {}}}) SET n += {{m1: 1, m2: 'two'}}{}", k, if ret { " RETURN n" } else { "" })
+                }
+                24 => {
+                    // node without any label and without further properties
+                    let k = self.fresh();
+                    self.nodes.push(k);
+                    format!("CREATE (n {{k: {}}}){}", k, if ret { " RETURN n" } else { "" })
+                }
+                25 if have_n && rng.chance(1, 3) => {
+                    // refused: this build serves one graph; must change nothing anywhere
+                    return Rq::OtherGraph(fe);
+                }
+                26 if have_n && rng.chance(1, 2) => return Rq::Restart,
                 _ => continue,
             };
             return Rq::Query(fe, q);
@@ -476,26 +657,31 @@ fn gen_partial(rng: &mut Rng, len: usize) -> Vec<Rq> {
     let mut g = Gen { next_k: 0, nodes: vec![], rels: vec![] };
     let mut h = vec![];
     for _ in 0..len {
-        let q = match rng.usize(3) {
+        let q = match rng.usize(4) {
             0 => {
-                let k = g.fresh();
-                g.nodes.push(k);
-                format!("CREATE (n:L {{k: {}, s: 'x y'}}) RETURN n", k)
+                let n = g.node(rng, "n");
+                format!("CREATE {} RETURN n", n)
             }
             1 => {
-                let (a, b, w) = (g.fresh(), g.fresh(), g.fresh());
-                g.nodes.push(a);
-                g.nodes.push(b);
-                format!("CREATE (a:L {{k: {}}})-[r:T {{w: {}}}]->(b:L {{k: {}}}) RETURN a, r, b", a, w, b)
+                let (a, r, b) = (g.node(rng, "a"), g.rel(rng, "r"), g.node(rng, "b"));
+                format!("CREATE {}-{}->{} RETURN {}", a, r, b, ["a, r, b", "r, b, a", "b, a, r"][rng.usize(3)])
             }
-            _ if g.nodes.len() >= 2 => {
+            2 if g.nodes.len() >= 2 => {
                 let a = *rng.pick(&g.nodes);
                 let b = *rng.pick(&g.nodes);
-                format!("MATCH (a:L {{k: {}}}), (b:L {{k: {}}}) CREATE (a)-[r:T {{w: {}}}]->(b) RETURN r", a, b, g.fresh())
+                let r = g.rel(rng, "r");
+                format!("MATCH (a {{k: {}}}), (b {{k: {}}}) CREATE (a)-{}->(b) RETURN r", a, b, r)
+            }
+            3 if !h.is_empty() && rng.chance(1, 3) => {
+                h.push(Rq::Restart);
+                continue;
             }
             _ => continue,
         };
         h.push(Rq::Query(Fe::Resp, q));
+    }
+    while matches!(h.last(), Some(Rq::Restart)) {
+        h.pop();
     }
     h
 }
@@ -552,7 +738,7 @@ fn main() {
     }
     rep.count_n("corpus_histories", hists.len() as u64);
     if args.replay.is_none() {
-        let (n_part, n_rand) = if args.thorough() { (60, 240) } else { (12, 40) };
+        let (n_part, n_rand) = if args.thorough() { (60, 240) } else { (12, 45) };
         for _ in 0..n_part {
             let len = 1 + rng.usize(6);
             hists.push(("partial".into(), gen_partial(&mut rng, len)));
@@ -567,11 +753,11 @@ fn main() {
 
     // ---- run on the real server (a few worker threads, one tokio runtime each) -----------
     let n_workers = 6usize;
-    let mut reals: Vec<Option<(Real, Interner)>> = (0..hists.len()).map(|_| None).collect();
+    let mut reals: Vec<Option<(Vec<Real>, Interner)>> = (0..hists.len()).map(|_| None).collect();
     {
         let work = &args.work;
         let hists_ref = &hists;
-        let results: Vec<Vec<(usize, Real, Interner)>> = std::thread::scope(|sc| {
+        let results: Vec<Vec<(usize, Vec<Real>, Interner)>> = std::thread::scope(|sc| {
             let hs: Vec<_> = (0..n_workers)
                 .map(|w| {
                     sc.spawn(move || {
@@ -602,8 +788,14 @@ fn main() {
 
     let mut first_break: Option<String> = None;
     for (n, (origin, hist)) in hists.iter().enumerate() {
-        let (real, mut codes) = reals[n].take().expect("history result");
+        let (epochs, mut codes) = reals[n].take().expect("history result");
+        let n_epochs = epochs.len();
+        for (ep, real) in epochs.into_iter().enumerate() {
         let text = hist.iter().map(show_rq).collect::<Vec<_>>().join(" ;; ");
+        let epoch_note = if n_epochs > 1 { format!(" [epoch {} of {}]", ep + 1, n_epochs) } else { String::new() };
+        if n_epochs > 1 {
+            rep.count(&format!("epoch:{}", ep + 1));
+        }
         for s in &real.steps {
             rep.count(if s.acked { "request:acknowledged" } else { "request:refused" });
             if let (true, Rq::Query(fe, q)) = (s.acked, &s.rq) {
@@ -612,12 +804,15 @@ fn main() {
             if matches!(s.rq, Rq::GraphDelete) {
                 rep.count("stmt:resp:graph.delete");
             }
+            if matches!(s.rq, Rq::OtherGraph(_)) {
+                rep.count(if s.acked { "stmt:other-graph:ACKNOWLEDGED" } else { "stmt:other-graph:refused" });
+            }
         }
         if real.tainted {
             rep.count("history:discarded(unacknowledged request changed memory)");
             continue;
         }
-        let model_hist: Vec<String> = real.steps.iter().filter_map(|s| s.model.clone()).collect();
+        let model_hist: Vec<String> = real.prefix.iter().cloned().chain(real.steps.iter().filter_map(|s| s.model.clone())).collect();
         let mh = if model_hist.is_empty() { "-".to_string() } else { model_hist.join(";") };
 
         // observations for S: every entity id seen in memory or after the restart
@@ -652,12 +847,12 @@ fn main() {
 
         let acked_nonkw = real.steps.iter().any(|s| s.acked && matches!(&s.rq, Rq::Query(_, q) if (!lead_is_write(q) || q.contains('\n')) && !(s.muts_n.is_empty() && s.muts_e.is_empty())));
         let nontrivial = acked_nonkw && (!n_ids.is_empty() || !e_ids.is_empty());
-        rep.case(&text, nontrivial);
+        rep.case(&format!("{}{}", text, epoch_note), nontrivial);
         rep.count(&format!("history:{}", origin));
 
         let body_head = format!(
-            "hist {}\n# model history {}\n# memory    nodes {:?}\n#           rels  {:?}\n# recovered nodes {:?}\n#           rels  {:?}\n# model: {}\n# spec: {}",
-            text, mh, real.mem.nodes, real.mem.edges, real.rec.nodes, real.rec.edges, replies[0], replies[1]
+            "hist {}\n#{} model history {}\n# memory    nodes {:?}\n#           rels  {:?}\n# recovered nodes {:?}\n#           rels  {:?}\n# model: {}\n# spec: {}",
+            text, epoch_note, mh, real.mem.nodes, real.mem.edges, real.rec.nodes, real.rec.edges, replies[0], replies[1]
         );
         if rep.samples.len() < 4 && nontrivial {
             rep.sample(json!({"history": text, "model_history": mh, "spec": replies[1], "model": replies[0]}));
@@ -673,6 +868,8 @@ fn main() {
                 if hit || matches!(s.rq, Rq::GraphDelete) {
                     return match &s.rq {
                         Rq::GraphDelete => "resp:graph.delete".into(),
+                        Rq::Restart => "restart".into(),
+                        Rq::OtherGraph(_) => "other-graph-request".into(),
                         Rq::Query(fe, q) => format!(
                             "{}:{}:{}",
                             if *fe == Fe::Resp { "resp" } else { "http" },
@@ -716,7 +913,12 @@ fn main() {
                 };
                 if rec_s == mod_s {
                     // predicted by the model: its blame names the cause
-                    let sig = if *kind == 'n' { m_blame_n.get(id).cloned() } else { m_blame_e.get(id).cloned() }.unwrap_or_else(|| format!("unexplained:no-blame:{}", shape));
+                    let mut sig = if *kind == 'n' { m_blame_n.get(id).cloned() } else { m_blame_e.get(id).cloned() }.unwrap_or_else(|| format!("unexplained:no-blame:{}", shape));
+                    // the synthetic prefix expresses "stored but refused by the previous recovery" as a
+                    // delete; its real cause is the endpoint that was never stored
+                    if *kind == 'e' && sig == "resp:delete" && real.dangling.contains(id) && last_mut('e', *id) == "never-written" {
+                        sig = "resp:endpoint-not-durable".into();
+                    }
                     rep.count(&format!("loss:{}:{}", sig, shape));
                     rep.spec_violation(&known, &sig, &format!("{} is {} after the restart ({}) in `{}`", ent, shape, sig, text), &format!("{}\n# {} memory={:?} recovered={:?} model={:?}", body_head, ent, mem_s, rec_s, mod_s));
                 } else {
@@ -737,6 +939,7 @@ fn main() {
         rep.count(if spec_failed { "history:loses-something" } else { "history:durable" });
         if origin == "partial" && spec_failed {
             rep.count("partial-history-not-durable");
+        }
         }
     }
     if let Some(body) = first_break {
